@@ -613,3 +613,65 @@ def _citems(ex, d, args, kwargs, node):
     r = VSeq(z3.IntVal(len(d.items)), lambda i: None)
     r.concrete = [VTuple([k, v]) for k, v in d.items]
     return r
+
+
+# ---------------------------------------------------------------------------
+# dict(x) copy and dict.update(other)   (TB-py)
+# ---------------------------------------------------------------------------
+@fn("builtins.dict", tb="TB-py")
+def _dict(ex, args, kwargs, node):
+    if not args:
+        return VEmptyDict()
+    (d,) = args
+    if isinstance(d, VDict):
+        return VDict(d.keys, d.val, d.et, d.kt)
+    raise Unsupported("dict() of this argument")
+
+
+_upd: dict = {}
+
+
+def update_funs(kt, et):
+    """keys / values of `d.update(o)`:  AppendNew(keys, okeys), Merge(val, okeys, oval)"""
+    key = (kt.sort().name(), et.sort().name())
+    if key in _upd:
+        return _upd[key]
+    KL = kt.list_theory()
+    A = z3.ArraySort(kt.sort(), et.sort())
+    mem, _w = L.mem_theory(kt.sort())
+    app = z3.Function(f"AppendNew_{key[0]}_{key[1]}", KL.sort, KL.sort, KL.sort)
+    mrg = z3.Function(f"Merge_{key[0]}_{key[1]}", A, KL.sort, A, A)
+    ks, os_ = z3.Const("_u_ks", KL.sort), z3.Const("_u_os", KL.sort)
+    v, ov = z3.Const("_u_v", A), z3.Const("_u_ov", A)
+    k = z3.Const("_u_k", kt.sort())
+    i = z3.Int("_u_i")
+    L.TH.axiom([v, os_, ov, k], z3.Select(mrg(v, os_, ov), k), z3.Select(mrg(v, os_, ov), k) == z3.If(mem(os_, k), z3.Select(ov, k), z3.Select(v, k)), "update.value")
+    L.TH.axiom([ks, os_, k], mem(app(ks, os_), k), mem(app(ks, os_), k) == z3.Or(mem(ks, k), mem(os_, k)), "update.keys.mem")
+    # existing keys keep their positions
+    L.TH.axiom([ks, os_, i], KL.at(app(ks, os_), i), z3.Implies(z3.And(0 <= i, i < KL.len(ks)), KL.at(app(ks, os_), i) == KL.at(ks, i)), "update.keys.prefix")
+    L.TH.axiom([ks, os_], app(ks, os_), KL.len(app(ks, os_)) >= KL.len(ks), "update.keys.len>=")
+    # when no new key is present already, the new keys are appended in order
+    disj = z3.Function(f"Disjoint_{key[0]}", KL.sort, KL.sort, L.Bool)
+    L.TH.axiom([ks, os_, i], [disj(ks, os_), KL.at(os_, i)], z3.Implies(z3.And(disj(ks, os_), 0 <= i, i < KL.len(os_)), z3.Not(mem(ks, KL.at(os_, i)))), "disjoint.elim")
+    dw = z3.Function(f"disjw_{key[0]}", KL.sort, KL.sort, L.Int)
+    L.TH.axiom([ks, os_], disj(ks, os_), z3.Implies(z3.Not(disj(ks, os_)), z3.And(0 <= dw(ks, os_), dw(ks, os_) < KL.len(os_), mem(ks, KL.at(os_, dw(ks, os_))))), "disjoint.intro")
+    L.TH.axiom([ks, os_], app(ks, os_), z3.Implies(disj(ks, os_), KL.len(app(ks, os_)) == KL.len(ks) + KL.len(os_)), "update.keys.len.disjoint")
+    L.TH.axiom([ks, os_, i], KL.at(app(ks, os_), i), z3.Implies(z3.And(disj(ks, os_), KL.len(ks) <= i, i < KL.len(ks) + KL.len(os_)), KL.at(app(ks, os_), i) == KL.at(os_, i - KL.len(ks))), "update.keys.suffix.disjoint")
+    _upd[key] = (app, mrg, disj)
+    return _upd[key]
+
+
+@meth("dict", "update", tb="TB-py")
+def _update(ex, d, args, kwargs, node):
+    (o,) = args
+    if not isinstance(o, VDict) or o.et.sort() != d.et.sort() or o.kt.sort() != d.kt.sort():
+        raise Unsupported("dict.update with this argument")
+    app, mrg, _disj = update_funs(d.kt, d.et)
+    new = VDict(app(d.keys, o.keys), mrg(d.val, o.keys, o.val), d.et, d.kt)
+    ex.rebind(node.func.value, d, new)
+    return VNone()
+
+
+@meth("str", "replace", tb="TB-py")
+def _replace(ex, s, args, kwargs, node):
+    return VStr(ex.st.fresh_const("replaced", StrSort))
